@@ -231,6 +231,8 @@ def run(ctx):
                False, f'{b} may raise after {a} has modified the registry')
     ctx.floor('C06.R3', len(seq), 3, 'registry-modifying callees in the critical section')
 
+    _registration(ctx, repo, cg)
+
     # ---- R4 ----------------------------------------------------------------------
     ctx.rule('C06.R4', 'beartyping(): (a) every registry field written by the try body (interprocedurally through '
              'beartype_all → hook_packages) is restored by the finally block; (b) the finally block\'s restore '
@@ -324,6 +326,208 @@ def run(ctx):
            'configuration otherwise', ok, '')
 
     _r5(ctx, repo)
+
+
+def _registration(ctx, repo, cg):
+    """R6–R8: registering a name reaches the node of that name; the "anything registered?" test
+    sees registrations at every depth; the registry is only written by the registration module."""
+    pm = repo.mod('beartype.claw._package.clawpkgmain')
+    # ---- R6 ----------------------------------------------------------------------
+    ctx.rule('C06.R6', 'registration descends to the node of the *full* dotted name: in _whitelist_packages_some and '
+             '_blacklist_packages the component loop iterates the split of the name (minus the leaf for the '
+             'blacklist), creates the missing child and descends in every iteration, and has no early exit '
+             '(break / continue / return / raise); the configuration (or the blacklisted marker) is stored on the '
+             'node the descent ended on')
+    for fname, leaf in (('_whitelist_packages_some', False), ('_blacklist_packages', True)):
+        fn = pm.defs.get(fname)
+        ctx.require(fn is not None, f'anchor vanished: {fname}')
+        # the loop over the package names that stores into the registry (a preceding read-only validation
+        # pass, as a repair of F7 would add, is not a registration loop)
+        outer = [x for x in walk_shallow(fn) if isinstance(x, ast.For) and parent(x) is fn and any(
+            isinstance(a, ast.Assign) and isinstance(a.targets[0], (ast.Subscript, ast.Attribute)) for a in ast.walk(x))]
+        ctx.require(len(outer) == 1, f'{fname}: expected one storing loop over the package names')
+        name_var = dotted(outer[0].target)
+        inner = [x for x in outer[0].body if isinstance(x, ast.For)]
+        ctx.require(len(inner) == 1, f'{fname}: expected one descent loop per package name')
+        lp = inner[0]
+        comps = dotted(lp.iter)
+        split = [a for a in outer[0].body if isinstance(a, ast.Assign) and dotted(a.targets[0]) == comps]
+        ok_iter = bool(split) and norm(split[0].value) == f"{name_var}.split('.')"
+        if leaf and ok_iter:
+            # the blacklist stores the marker under the last component: the loop runs over components[:-1]
+            ok_iter = len(split) == 2 and norm(split[1].value) == f'{comps}[:-1]'
+        elif ok_iter:
+            ok_iter = len(split) == 1
+        ctx.ob('C06.R6', f'{fname}:descent-over-all-components', pm.where(lp),
+               'the descent loop runs over every component of the registered name', ok_iter,
+               f'loop over `{norm(lp.iter)}`; assignments to it: {[norm(a.value) for a in split]}')
+        exits = [x for x in ast.walk(lp) if isinstance(x, (ast.Break, ast.Continue, ast.Return, ast.Raise))]
+        ctx.ob('C06.R6', f'{fname}:descent-has-no-early-exit', pm.where(exits[0] if exits else lp),
+               'the descent loop has no early exit: the node reached is the node of the full name', not exits,
+               f'`{norm(exits[0])}` under `{norm(parent(exits[0]).test)[:80] if exits and isinstance(parent(exits[0]), ast.If) else ""}` '
+               f'leaves the descent before the last component' if exits else '')
+        cur = None
+        desc = [a for a in lp.body if isinstance(a, ast.Assign) and isinstance(a.value, ast.Subscript)
+                and dotted(a.value.value) == dotted(a.targets[0]) and dotted(a.value.slice) == dotted(lp.target)]
+        ok_desc = len(desc) == 1 and lp.body[-1] is desc[0]
+        if desc:
+            cur = dotted(desc[0].targets[0])
+        create = [i for i in lp.body if isinstance(i, ast.If) and norm(i.test) == f'{dotted(lp.target)} not in {cur}']
+        ok_desc = ok_desc and len(create) == 1 and len(lp.body) == 2
+        ctx.ob('C06.R6', f'{fname}:descent-creates-and-descends', pm.where(lp),
+               'each iteration creates the missing child and then descends into it, unconditionally', ok_desc,
+               f'loop body: {[norm(x)[:60] for x in lp.body]}')
+        after = outer[0].body[outer[0].body.index(lp) + 1:]
+        tgt_ok = False
+        for st in after:
+            for a in ast.walk(st):
+                if isinstance(a, ast.Assign):
+                    t = a.targets[0]
+                    if leaf and isinstance(t, ast.Subscript) and dotted(t.value) == cur:
+                        tgt_ok = True
+                    if not leaf and isinstance(t, ast.Attribute) and t.attr == 'conf_if_hooked' and dotted(t.value) == cur:
+                        tgt_ok = True
+        ctx.ob('C06.R6', f'{fname}:stores-on-descended-node', pm.where(outer[0]),
+               'the registration is stored on the node the descent ended on', tgt_ok and cur is not None, f'descent variable {cur}')
+
+    # ---- R7 ----------------------------------------------------------------------
+    ctx.rule('C06.R7', 'is_packages_trie() — which decides whether the path hook may be removed — is true whenever '
+             'anything is registered at any depth: interpreted over the abstract registry shapes {nothing, root '
+             'configuration only, a registered top-level package, a registered sub-package below an unregistered '
+             'parent (what registering "a.b" creates)} × {root configuration set / unset}')
+    from sa.fold import AObj, FuncVal, _Abort, _Raise, _call_function
+    from . import _gen
+    F = _gen.engines(ctx)[0].f
+    tm = repo.mod('beartype.claw._package.clawpkgtrie')
+    fnv = F.const('beartype.claw._package.clawpkgtrie', 'is_packages_trie')
+    ctx.require(isinstance(fnv, FuncVal), 'anchor vanished: is_packages_trie')
+
+    class _Trie(AObj):
+        """Abstract registry node: a mapping of child nodes plus the two slots of the real class."""
+
+        def __init__(self, conf=None, **kids):
+            self.kids = dict(kids)
+            self.conf_if_hooked = conf
+            self.package_basename = None
+
+        def values(self):
+            return list(self.kids.values())
+
+        def keys(self):
+            return list(self.kids.keys())
+
+        def items(self):
+            return list(self.kids.items())
+
+        def get(self, k, d=None):
+            return self.kids.get(k, d)
+
+        def __iter__(self):
+            return iter(list(self.kids))
+
+        def __len__(self):
+            return len(self.kids)
+
+        def __contains__(self, k):
+            return k in self.kids
+
+        def __getitem__(self, k):
+            return self.kids[k]
+
+        def __repr__(self):
+            return f'<trie conf={self.conf_if_hooked is not None} {self.kids!r}>'
+    trie = _Trie
+    prev_b = F.builtin_hook
+
+    def bh(name, args, kwargs):
+        if args and isinstance(args[0], _Trie) and name in ('bool', 'len'):
+            return len(args[0]) if name == 'len' else bool(len(args[0]))
+        return prev_b(name, args, kwargs) if prev_b else NotImplemented
+    F.builtin_hook = bh
+    conf = AObj()
+    shapes = {
+        'nothing': lambda: trie(),
+        'top-level-package': lambda: trie(a=trie(conf)),
+        'sub-package-below-unregistered-parent': lambda: trie(a=trie(None, b=trie(conf))),
+        'sub-sub-package': lambda: trie(a=trie(None, b=trie(None, c=trie(conf)))),
+    }
+    state = AObj()
+    old = F.patch_global('beartype.claw._clawstate', 'claw_state', state)
+    try:
+        for root_conf in (False, True):
+            for nm, mk in shapes.items():
+                t = mk()
+                if root_conf:
+                    t.conf_if_hooked = conf
+                state.packages_trie_whitelist = t
+                state.packages_trie_blacklist = _Trie()
+                try:
+                    out = _call_function(F, fnv, [], {}, 1)
+                    if isinstance(out, _Trie):
+                        out = bool(len(out))
+                except (_Abort, _Raise) as ex:
+                    ctx.require(False, f'cannot interpret is_packages_trie: {ex}')
+                want = root_conf or nm != 'nothing'
+                ctx.ob('C06.R7', f'is_packages_trie:{nm}:root-conf={root_conf}', tm.where(fnv.node),
+                       'the registry counts as non-empty exactly when something is registered (at any depth)',
+                       out is want,
+                       f'is_packages_trie() evaluates to {out!r} for this registry shape; expected {want}: '
+                       + ('leaving beartyping() would remove the path hook although a package is still registered' if want else
+                          'the path hook would never be removed'))
+    finally:
+        F.patch_global('beartype.claw._clawstate', 'claw_state', old)
+        F.builtin_hook = prev_b
+    rm = tm.defs.get('remove_beartype_pathhook_unless_packages_trie')
+    ctx.require(rm is not None, 'anchor vanished: remove_beartype_pathhook_unless_packages_trie')
+    ifs = [i for i in walk_shallow(rm) if isinstance(i, ast.If)]
+    ok = len(ifs) == 1 and norm(ifs[0].test) == 'not is_packages_trie()' and not ifs[0].orelse and \
+        [norm(x) for x in ifs[0].body] == ['remove_beartype_path_hook()']
+    ctx.ob('C06.R7', 'remove-path-hook-only-when-registry-empty', tm.where(rm),
+           'the path hook is removed only when is_packages_trie() is false', ok, f'{[norm(i.test) for i in ifs]}')
+
+    # ---- R8 ----------------------------------------------------------------------
+    ctx.rule('C06.R8', 'who may register: every public hook (beartype_all, beartype_package(s), beartype_this_package, '
+             'beartyping via beartype_all) registers through hook_packages, which applies the skip list, the '
+             'conflict check and the path hook; outside clawpkgmain the only stores into the registry are '
+             'beartyping()\'s reset of the root configuration to None and its restore of the saved value, and the '
+             'state constructor')
+    mainq = 'beartype.claw._package.clawpkgmain'
+    n = 0
+    for q, (m, fn) in sorted(cg.funcs.items()):
+        if q.startswith(mainq + '.') or q in EXEMPT:
+            continue
+        for a in ast.walk(fn):
+            if not isinstance(a, (ast.Assign, ast.AugAssign)):
+                continue
+            for t in (a.targets if isinstance(a, ast.Assign) else [a.target]):
+                txt = norm(t)
+                if not ('packages_trie_whitelist' in txt or 'packages_trie_blacklist' in txt) or isinstance(t, ast.Name):
+                    continue
+                n += 1
+                v = a.value
+                ok = q.endswith('clawpkgcontext.beartyping') and txt.endswith('packages_trie_whitelist.conf_if_hooked') and (
+                    (isinstance(v, ast.Constant) and v.value is None) or
+                    (isinstance(v, ast.Name) and v.id.endswith('_old')))
+                ctx.ob('C06.R8', f'registry-store:{q.replace("beartype.claw.", "")}:{txt}={norm(v)[:40]}', m.where(a),
+                       'a store into the registry outside the registration module is the reset / restore of beartyping()',
+                       ok, f'`{norm(a)[:100]}` registers a configuration without going through hook_packages '
+                       f'(skip list, conflict check and path hook are bypassed)')
+    cm = repo.mod('beartype.claw._clawmain')
+    pubs = [f for f in cm.tree.body if isinstance(f, ast.FunctionDef) and f.name.startswith('beartype_')]
+    ctx.require(len(pubs) >= 4, f'expected the four public hook functions in beartype.claw._clawmain, found {len(pubs)}')
+    for f in pubs:
+        calls = [c for c in walk_shallow(f) if isinstance(c, ast.Call) and dotted(c.func) == 'hook_packages']
+        kw = {k.arg: norm(k.value) for c in calls for k in c.keywords}
+        ctx.ob('C06.R8', f'public-hook:{f.name}:through-hook_packages', cm.where(f),
+               'the public hook registers through hook_packages with the caller\'s configuration',
+               len(calls) == 1 and kw.get('conf') == 'conf', f'{[norm(c)[:80] for c in calls]}')
+    bt = repo.mod('beartype.claw._package.clawpkgcontext').defs.get('beartyping')
+    calls = [c for c in ast.walk(bt) if isinstance(c, ast.Call) and dotted(c.func) in ('beartype_all', 'hook_packages')]
+    kw = {k.arg: norm(k.value) for c in calls for k in c.keywords}
+    ctx.ob('C06.R8', 'public-hook:beartyping:through-hook_packages', repo.mod('beartype.claw._package.clawpkgcontext').where(bt),
+           'beartyping() registers its configuration through beartype_all() / hook_packages', len(calls) == 1 and kw.get('conf') == 'conf',
+           f'{[norm(c)[:80] for c in calls]}')
+    ctx.floor('C06.R8', n, 2, 'registry stores outside the registration module')
 
 
 def _r5(ctx, repo):
